@@ -1,0 +1,33 @@
+//go:build verif
+
+// Machine-checked contracts for package aztec (comment-only; read by /verif/govc).
+package aztec
+
+// ---- stage contracts used while unwinding the drawing part of EncodeWithColor for a fixed
+// (compact, layers): the bit-producing stages are abstracted to "a fresh bit list of this length";
+// what their bits ARE is the business of the bounded round-trip stand-in (C03) and of C17.
+
+//@ func highlevelEncode
+//@   abstract
+//@   attr fresh_bitlist ?
+//@   ensures result != nil
+
+//@ func stuffBits
+//@   abstract
+//@   attr fresh_bitlist ?
+//@   requires bits != nil && (wordSize == 4 || wordSize == 6 || wordSize == 8 || wordSize == 10 || wordSize == 12)
+//@   ensures result != nil && result.count % wordSize == 0 && bits.count <= result.count
+
+//@ func generateCheckWords
+//@   abstract
+//@   attr fresh_bitlist totalBits
+//@   requires bits != nil && (wordSize == 4 || wordSize == 6 || wordSize == 8 || wordSize == 10 || wordSize == 12)
+//@   requires bits.count % wordSize == 0 && bits.count / wordSize < totalBits / wordSize
+//@   ensures result != nil && result.count == totalBits
+
+//@ func generateModeMessage
+//@   abstract
+//@   attr fresh_bitlist (compact ? 28 : 40)
+//@   requires 1 <= layers && (compact ? layers <= 4 : layers <= 32)
+//@   requires 1 <= messageSizeInWords && (compact ? messageSizeInWords <= 64 : messageSizeInWords <= 2048)
+//@   ensures result != nil && result.count == (compact ? 28 : 40)
